@@ -41,8 +41,16 @@ def build(seed, i, tier, readers=0, families=None, ctx=None, with_operands=True)
            "uuid_seed": rs.getrandbits(32), "opcode": tier == "thorough" and rs.random() < 0.15}
     init = _thr.init_content(kind, fresh)
     pre = [{"t": "new_res", "family": fam, "kind": kind, "init": init}]
-    for _ in range(nobj):
-        pre.append({"t": "new_obj", "rid": 0, "wc": cfg["wc"]})
+    rebound = with_operands and nobj >= 2 and rs.random() < 0.12
+    for o_ in range(nobj):
+        if rebound and o_ == nobj - 1:
+            # this object is opened on ANOTHER file first and then pointed at the shared file (obj.filename = ...): it must
+            # synchronise with the objects that were bound to the file from the start
+            pre.append({"t": "new_res", "family": fam, "kind": kind, "init": _thr.init_content(kind, Fresh())})
+            pre.append({"t": "new_obj", "rid": 1, "wc": cfg["wc"]})
+            pre.append({"t": "rebind", "oid": o_, "rid": 0})
+        else:
+            pre.append({"t": "new_obj", "rid": 0, "wc": cfg["wc"]})
     paths = _thr.CHILD_PATHS[kind]
     hpaths = [[] for _ in range(nobj)]
     hobj = list(range(nobj))
